@@ -172,3 +172,15 @@ Lemma l_c_loaders_share_constructors :
   forallb (fun x => negb (String.eqb (fst (fst x)) "Constructor")) methods = true /\
   forallb (fun k => match own_of "Constructor" k (own w0) with None => true | Some _ => false end) [KCtor; KMultiCtor] = true.
 Proof. vm_compute. repeat split; reflexivity. Qed.
+
+(* every effective registry table of a C class equals its Python counterpart's (C06) *)
+Fixpoint strs_eqb (a b : list string) : bool := match a, b with [], [] => true | x :: a', y :: b' => String.eqb x y && strs_eqb a' b' | _, _ => false end.
+Fixpoint table_eqb (a b : table) : bool :=
+  match a, b with [], [] => true | (k1, v1) :: a', (k2, v2) :: b' => key_eqb k1 k2 && strs_eqb v1 v2 && table_eqb a' b' | _, _ => false end.
+Definition same_tables (a b : cls) : bool :=
+  forallb (fun k => table_eqb (effective w0 a k) (effective w0 b k)) [KCtor; KMultiCtor; KRepr; KMultiRepr; KImplicit; KPath].
+Definition c_pairs : list (cls * cls) :=
+  [("CBaseLoader", "BaseLoader"); ("CSafeLoader", "SafeLoader"); ("CFullLoader", "FullLoader"); ("CUnsafeLoader", "UnsafeLoader"); ("CLoader", "Loader");
+   ("CBaseDumper", "BaseDumper"); ("CSafeDumper", "SafeDumper"); ("CDumper", "Dumper")].
+Lemma l_c_classes_same_tables : forallb (fun p => same_tables (fst p) (snd p)) c_pairs = true.
+Proof. vm_compute. reflexivity. Qed.
